@@ -4,3 +4,4 @@ import DdsModel.PyVal
 import DdsModel.Args
 import DdsModel.Sig
 import DdsModel.Auth
+import DdsModel.Paths
